@@ -4,7 +4,8 @@ import sys, json, re
 sid, pid = sys.argv[1:3]
 p = f"/verif/seeded/{sid}/meta.json"
 m = json.load(open(p))
-log = open(f"/tmp/seedrun/last_{pid}.log").read()
+import os
+log = open(os.environ.get("SEEDRUN", "/tmp/seedrun") + f"/last_{pid}.log").read()
 det = ("caught-no-input" if re.search(r"^VIOLATION.*no-failing-input-found", log, re.M)
        else "caught-with-input" if re.search(r"^VIOLATION", log, re.M) else "missed")
 lines = [l.rstrip()[:300] for l in log.split("\n") if re.match(r"\[C|VIOLATION|KNOWN|  broken\[|  fails\[", l)]
